@@ -153,7 +153,7 @@ def check_value(case) -> list[Fail]:
     if v["k"] in ("unitsum", "true", "false", "boolv", "unit", "tuple", "some", "none", "left", "right"):
         t = ref.ref_typeof(v)
         g = val.Sum(ref.ref_tag(v), __import__("hugr").tys.Sum([[mk_type(q) for q in r] for r in rows_of(t)]), [mk_value(q) for q in v.get("vs", [])])
-        if x != g or g != x or x.type_() != g.type_() or x.type_().type_bound() != g.type_().type_bound():
+        if not val_equal(x, g) or not val_equal(g, x) or x.type_() != g.type_() or x.type_().type_bound() != g.type_().type_bound():
             fails.append(Fail("sugar-eq", f"value:{v['k']}", f"{x!r} vs {g!r}"[:300]))
     return fails
 
@@ -165,7 +165,9 @@ def val_equal(y, gen) -> bool:
     import hugr.val as val
 
     if isinstance(gen, val.Function):
-        return isinstance(y, val.Function) and [d.op for _, d in y.body.nodes()] == [d.op for _, d in gen.body.nodes()]
+        from vlib.store import op_key, snapshot
+
+        return isinstance(y, val.Function) and [op_key(d.op) for _, d in y.body.nodes()] == [op_key(d.op) for _, d in gen.body.nodes()] and snapshot(y.body)[1] == snapshot(gen.body)[1]
     if isinstance(gen, val.Extension):
         return (
             isinstance(y, val.Extension)
